@@ -155,3 +155,7 @@ mod tests {
         assert!(view.get("name").is_none());
     }
 }
+
+#[cfg(kani)]
+#[path = "/verif/harness/anda_cognitive_nexus/governance_redact.rs"]
+mod verif_kani;
